@@ -11,6 +11,7 @@ CONSTANTS
   DialMayFail = FALSE
   WithClose = TRUE
   MayCancel = FALSE
+  DialedAtStart = TRUE
   MayReset = TRUE
   MaySrvClose = TRUE
 INVARIANTS Safety Recovers
